@@ -74,6 +74,12 @@ type wevent struct {
 type ArrayV struct {
 	e   []Value
 	log []wevent
+	// acc marks the backing array of an append accumulator: cells at index >=
+	// accBase were never part of any slice when the array was allocated, so
+	// whenever such a cell is read inside a slice's length it was written by
+	// a logged append; the zero base value of those cells is unreachable.
+	acc     bool
+	accBase int
 }
 type TupleV struct{ v []Value }
 
@@ -325,7 +331,16 @@ func (ex *Exec) merge(g *Term, a, b Value) Value {
 			}
 			alts = append(alts, x.alts[nx-k:]...)
 		}
-		return &PtrV{alts: alts}
+		// coalesce adjacent alternatives with the same target
+		out := alts[:0:0]
+		for _, al := range alts {
+			if n := len(out); n > 0 && out[n-1].obj == al.obj && samePath(out[n-1].path, al.path) {
+				out[n-1].g = tb.Or(out[n-1].g, al.g)
+				continue
+			}
+			out = append(out, al)
+		}
+		return &PtrV{alts: out}
 	case *SliceV:
 		y := b.(*SliceV)
 		if x == y {
@@ -447,7 +462,7 @@ func (ex *Exec) merge(g *Term, a, b Value) Value {
 					log = append(log, wevent{g: gg, idx: ev.idx, rest: ev.rest, val: ev.val})
 				}
 			}
-			return &ArrayV{e: x.e, log: log}
+			return &ArrayV{e: x.e, log: log, acc: x.acc && y.acc, accBase: x.accBase}
 		}
 		fx, fy := ex.flatten(x), ex.flatten(y)
 		e := make([]Value, n)
